@@ -44,7 +44,7 @@ def run(tier="quick", seed=0, use_cache=True):
     oo = out["OO"]["stats"]
     res.units = {"translation_units": len(out),
                  "functions": sum(r["stats"]["functions"] for r in out.values())}
-    res.floor("registration calls (OO)", oo["changed_calls"], 10)
+    res.floor("registration calls (OO)", oo["changed_calls"], 7)   # 10 today; a floor, not a count: one deleted call must be reported by the rule, not here
     res.floor("mutation sites (OO)", oo["mutation_sites"], 60)
     res.floor("caller-must-mark summaries (OO)", len(oo["dirties"]), 8)
     res.floor("translation units", len(out), 22)
